@@ -20,9 +20,9 @@ from ..gen import sheets as G
 from ..gen import sugar as S
 
 MANIFEST = dict(
-    text="Proof: Lean theorems compile_closed / compile_dests_resolve / compile_cases_resolve — for ALL event sequences (unbounded; rows, nested groups, inserted blocks) the output of the Lean compiler model (an arena state machine following FlowParser._parse_row, NodeGroups, routers, node constructors and add_nodes_to_flow line by line) is referentially closed: every destination is a node of the EMITTED flow and every case names a category of its own router (no hypothesis), and — when the sheet gives no _nodeId — node ids are unique, categories and exits correspond one to one, and every identifier is used for one object only (`Closed`, the literal statement of C01); by invariants of the machine's execution (arena closure, identifier freshness w.r.t. the counter, well-formed group tree ⇒ emission covers the arena exactly once), kernel-checked negative witness needs_no_given_ids (= finding F-C01-a). The model is tied to the REAL FlowParser by exact comparison of outputs on every generated sheet, and closedB_iff (the executable closure check equals `Closed`) is additionally run on every flow the REAL compiler emits; the document-level clauses (plain JSON, no HARD_EXIT marker, invented ids are distinct well-formed UUID-4) are evaluated on the same outputs.",
+    text="Proof: Lean theorems compile_closed_iff / compile_closed / compile_dests_resolve / compile_cases_resolve — for ALL event sequences (unbounded; rows, nested groups, inserted blocks) the output of the Lean compiler model (an arena state machine following FlowParser._parse_row, NodeGroups, routers, node constructors and add_nodes_to_flow line by line) is referentially closed: every destination is a node of the EMITTED flow and every case names a category of its own router (no hypothesis), and the output satisfies `Closed` (the literal statement of C01: node ids unique, categories and exits correspond one to one, every identifier used for one object only) EXACTLY WHEN its node ids are pairwise different (compile_closed_iff, for sheets with _nodeId values too: a duplicated given node id, finding F-C01-a, is the only way to a non-closed flow), hence always when the sheet gives no _nodeId (compile_closed); by invariants of the machine's execution (arena closure, identifier freshness w.r.t. the counter, well-formed group tree ⇒ emission covers the arena exactly once), kernel-checked negative witnesses needs_no_given_ids (= finding F-C01-a) and needs_plain_given_ids. The model is tied to the REAL FlowParser by exact comparison of outputs on every generated sheet, and closedB_iff (the executable closure check equals `Closed`) is additionally run on every flow the REAL compiler emits; the document-level clauses (plain JSON, no HARD_EXIT marker, invented ids are distinct well-formed UUID-4) are evaluated on the same outputs.",
     ref="§5 C01",
-    note="Trusts: Lean kernel; the correspondence between the Lean compiler model and the real FlowParser (checked by exact output comparison on every generated sheet, not proved); JSON→Flow decoder of the driver; harness generators (strata reported). compile_closed needs the hypothesis 'no _nodeId given' (witness needs_no_given_ids); sheets with given ids are covered by the per-output decision closedB only. Known finding F-C01-a (same _nodeId on an action row and a following router row) is outside the main stream and exercised deterministically.",
+    note="Trusts: Lean kernel; the correspondence between the Lean compiler model and the real FlowParser (checked by exact output comparison on every generated sheet, not proved); JSON→Flow decoder of the driver; harness generators (strata reported). compile_closed needs the hypothesis 'no _nodeId given' (witness needs_no_given_ids); with given ids compile_closed_iff reduces closure to uniqueness of node ids (hypothesis: given ids do not start with '~', the shape of the model's invented ids; witness needs_plain_given_ids). Known finding F-C01-a (same _nodeId on an action row and a following router row) is outside the main stream and exercised deterministically.",
     technique="Lean 4 proof by invariants of the compiler model for all event sequences (compile_closed) + exact model/real-code tie + verified decision procedure (closedB_iff) run on real compiler output + document-level UUID/JSON checks",
 )
 
@@ -211,7 +211,7 @@ def run(ck: core.Check):
         "compiled by the real compiler; a case = one workbook that compiles without error; distinct = distinct text"
     )
     ck.assumptions = ["'compiles without reporting an error' = no exception and no log record ≥ ERROR in library mode"]
-    ck.partial_gap = ["compile_closed is proved for ALL event sequences of the Lean compiler model (full `Closed` under the hypothesis that the sheet gives no _nodeId, needed: F-C01-a; destinations-in-the-emitted-flow and case→category without hypothesis); what links it to the real code is the exact comparison of model and real FlowParser outputs on every generated sheet (a tie, not a proof) — closure is therefore ALSO decided per explored real output by the verified procedure; sheets that give _nodeId values (node merging stream) are covered by that per-output decision only",
+    ck.partial_gap = ["compile_closed / compile_closed_iff are proved for ALL event sequences of the Lean compiler model (full `Closed` when the sheet gives no _nodeId; with given _nodeIds: `Closed` ⇔ node ids pairwise different, F-C01-a being the failing case; destinations-in-the-emitted-flow and case→category without hypothesis); what links them to the real code is the exact comparison of model and real FlowParser outputs on every generated sheet (a tie, not a proof) — closure is therefore ALSO decided per explored real output by the verified procedure",
                       "UI positions, action content and group/flow uuid assignment are outside the compiler model (Compile.lean header); insert_as_block is modelled as a nested parser over the shared arena"]
     drv = core.Driver()
 
